@@ -39,6 +39,9 @@ type StSub struct {
 	LeaveMs  int    `json:"leave"`  // 0: stays until after the shutdown
 	Slow     bool   `json:"slow"`   // reads one snapshot every 3 ms
 	Kind     string `json:"kind"`   // ctx (SubscribeStateChanges) | chan (AddStateSubscriber + callback)
+	// Hook: while this subscription is being registered (from inside the supervisor's call of the first scripted
+	// runnable's String()) that runnable changes to this state and waits until the supervisor's map shows it
+	Hook string `json:"hook,omitempty"`
 }
 
 type StScenario struct {
@@ -60,9 +63,15 @@ type scriptRunnable struct {
 	once   sync.Once
 	runAt  time.Time
 	atStop string // state when Stop returned
+	hook   atomic.Pointer[func()]
 }
 
-func (r *scriptRunnable) String() string { return fmt.Sprintf("r%d", r.i) }
+func (r *scriptRunnable) String() string {
+	if f := r.hook.Swap(nil); f != nil {
+		(*f)()
+	}
+	return fmt.Sprintf("r%d", r.i)
+}
 
 func (r *scriptRunnable) emit(s string) {
 	r.mu.Lock()
@@ -206,6 +215,19 @@ func runStScenario(sc StScenario) string {
 		res := &stSubResult{}
 		results[k] = res
 		var ch <-chan supervisor.StateMap
+		if sb.Hook != "" && len(scripted) > 0 {
+			r0 := scripted[0]
+			f := func() {
+				r0.emit(sb.Hook)
+				for i := 0; i < 1500; i++ {
+					if sv.GetStateMap()["r0"] == sb.Hook {
+						break
+					}
+					time.Sleep(200 * time.Microsecond)
+				}
+			}
+			r0.hook.Store(&f)
+		}
 		if sb.Kind == "chan" {
 			c := make(chan supervisor.StateMap, 10)
 			un := sv.AddStateSubscriber(c)
@@ -482,6 +504,9 @@ func genStScenario(r interface{ IntN(int) int }) StScenario {
 			}
 			sb.LeaveMs = a + 1 + r.IntN(20)
 		}
+		if sb.ArriveMs >= 2 && r.IntN(3) == 0 {
+			sb.Hook = pick(r, []string{"Reloading", "Running", "Degraded"})
+		}
 		sc.Subs = append(sc.Subs, sb)
 	}
 	for i := r.IntN(3); i > 0; i-- {
@@ -491,6 +516,10 @@ func genStScenario(r interface{ IntN(int) int }) StScenario {
 }
 
 var stCorpus = []StScenario{
+	// a subscription registered while a runnable changes state (from inside the supervisor's own String() call): the
+	// subscriber must still end up with the quiescent map
+	{Runs: []StRun{{Script: []StStep{{0, "Booting"}, {1, "Running"}}}}, Subs: []StSub{{ArriveMs: 6, Kind: "chan", Hook: "Degraded"}}, End: "term"},
+	{Runs: []StRun{{Script: []StStep{{0, "Booting"}, {1, "Running"}}}, {Script: []StStep{{0, "Running"}}}}, Subs: []StSub{{ArriveMs: 5, Kind: "ctx", Hook: "Reloading"}, {ArriveMs: -1, Kind: "ctx"}}, End: "shutdown"},
 	// late subscription: the runnable is Running before the supervisor's GetStateChan registers (C06-F1)
 	{Runs: []StRun{{SubDelayMs: 6, Script: []StStep{{0, "Booting"}, {1, "Running"}}}}, Subs: []StSub{{ArriveMs: -1, Kind: "ctx"}}, End: "term"},
 	// late subscription, then the runnable returns to the state that was recorded at its launch
